@@ -88,11 +88,11 @@ type event struct {
 
 // Point is one recorded scheduling decision with more than one alternative.
 type Point struct {
-	N       int   // number of alternatives
-	Chosen  int   // index taken
-	Costs   []int8 // preemption cost of each alternative (0/1)
-	Sig     uint64 // signature of the alternative list (divergence check)
-	Step    int
+	N      int    // number of alternatives
+	Chosen int    // index taken
+	Costs  []int8 // preemption cost of each alternative (0/1)
+	Sig    uint64 // signature of the alternative list (divergence check)
+	Step   int
 }
 
 // Exec is everything observed in one execution.
@@ -120,31 +120,31 @@ type LogEntry struct {
 }
 
 type sched struct {
-	threads []*thread
-	cur     *thread // thread holding the baton (nil = clock)
-	curIsClock bool
-	now     int64
-	events  []*event
-	evSeq   int
-	step    int
-	maxSteps int
-	prefix  []int
-	pos     int // number of recorded points so far
-	ex      *Exec
-	aborting bool
-	ended   bool
-	endOnce sync.Once
-	done    chan struct{}
-	live    sync.WaitGroup
-	objSeq  int
-	shadow  map[uintptr]*shadowCell
-	keep    []any
+	threads     []*thread
+	cur         *thread // thread holding the baton (nil = clock)
+	curIsClock  bool
+	now         int64
+	events      []*event
+	evSeq       int
+	step        int
+	maxSteps    int
+	prefix      []int
+	pos         int // number of recorded points so far
+	ex          *Exec
+	aborting    bool
+	ended       bool
+	endOnce     sync.Once
+	done        chan struct{}
+	live        sync.WaitGroup
+	objSeq      int
+	shadow      map[uintptr]*shadowCell
+	keep        []any
 	trackStates bool
-	logOn   bool
-	userData any
-	mainDone bool
-	atoms    map[uintptr]*VC
-	sites    bool
+	logOn       bool
+	userData    any
+	mainDone    bool
+	atoms       map[uintptr]*VC
+	sites       bool
 }
 
 // S is the scheduler of the execution in progress (one execution at a time per process).
